@@ -160,7 +160,9 @@ func (p *Plot) Add(r *vegeta.Result) error {
 func (p *Plot) Close() {
 	for _, as := range p.series {
 		for _, ts := range as.series {
-			ts.data.Finish()
+			if ts.data != nil {
+				ts.data.Finish()
+			}
 		}
 	}
 }
